@@ -121,19 +121,27 @@ impl FaultCtl {
 }
 
 fn jwk_err() -> KeyStorageError {
-  let kind = match ctx::choose(3) {
+  // every error kind a backend may answer with, including the ones that read like a verdict about the key ("not
+  // found" from an eventually consistent backend): a failed call is a failed call
+  let kind = match ctx::choose(6) {
     0 => KeyStorageErrorKind::RetryableIOFailure,
     1 => KeyStorageErrorKind::Unavailable,
-    _ => KeyStorageErrorKind::Unauthenticated,
+    2 => KeyStorageErrorKind::Unauthenticated,
+    3 => KeyStorageErrorKind::KeyNotFound,
+    4 => KeyStorageErrorKind::Unspecified,
+    _ => KeyStorageErrorKind::SerializationError,
   };
   KeyStorageError::new(kind).with_custom_message("injected by simulator")
 }
 
 fn kid_err() -> KeyIdStorageError {
-  let kind = match ctx::choose(3) {
+  let kind = match ctx::choose(6) {
     0 => KeyIdStorageErrorKind::RetryableIOFailure,
     1 => KeyIdStorageErrorKind::Unavailable,
-    _ => KeyIdStorageErrorKind::Unauthenticated,
+    2 => KeyIdStorageErrorKind::Unauthenticated,
+    3 => KeyIdStorageErrorKind::KeyIdNotFound,
+    4 => KeyIdStorageErrorKind::Unspecified,
+    _ => KeyIdStorageErrorKind::SerializationError,
   };
   KeyIdStorageError::new(kind).with_custom_message("injected by simulator")
 }
